@@ -110,6 +110,9 @@ def check(chk):
     _borrowed(chk)
     _refit_borrowed(chk)
     _defaults(chk)
+    # the metadata dict is re-encoded in place by every fit: nothing that steers a computation is read from it
+    from .common import attrs_reads
+    attrs_reads(chk, "HIST.attrs.read")
     chk.floor("HIST.grow", 30)
     chk.floor("HIST.rbw", 30)
     chk.floor("OWN.borrowed", 25)
